@@ -12,6 +12,7 @@ RULE = (
     "fundamental right after the clock advance, are compared with the monitor's own share-weighted mean "
     "(rel 1e-12). Setup-time negative cases: duplicate component, component without outstanding shares. Case = "
     "one run; distinct = (seed, component shares); non-trivial = unequal shares and moving component prices."
+    ' Since the seeded rounds: ArbitrageAgent groups with full and partial access beside the index, static component fundamentals with a shock, share counts whose total exceeds 2**63 in every 11th run, compute_market_index / compute_fundamental_index among the judged getters, early times re-asked at every record, end-of-run comparison of the component list with the configuration.'
 )
 ASSUMPTIONS = ["weighted mean computed with math.fsum over the same getters of the components"]
 REQUIRED = {
